@@ -564,3 +564,105 @@ func verifC12SetProductBounds() {
 }
 
 var _ = function.Function{}
+
+func init() {
+	verifRegister("verifC12Handwritten", verifC12Handwritten)
+}
+
+// verifC12Handwritten: the hand-written unknown handling of functions whose known-argument path needs a library the
+// engine cannot follow (encoding/json) or whose text is concrete (grapheme clusters): only the *weakened* call is
+// executed; the concrete result is supplied by the harness from a hand-written table.
+//   strlen(unknown with a prefix of a concrete text)  : the reported lower bound does not exceed the real cluster count
+//   jsondecode(unknown with a prefix of a valid document): the call still succeeds and the predicted type admits the
+//                                                        document's real type
+//   jsonencode(weakened value)                         : the result admits the real encoding (prefix, nullness)
+func verifC12Handwritten() {
+	switch vChoice("part", 3) {
+	case 0:
+		n := 1 + vChoice("n", 3)
+		text := ""
+		clusterEnd := map[int]bool{0: true}
+		for i := 0; i < n; i++ {
+			text += c14Clusters[vChoice("cluster", len(c14Clusters))]
+			clusterEnd[len(text)] = true
+		}
+		sv := cty.StringVal(text)
+		vAssume(sv.AsString() == text)
+		// cut at any code point boundary; a cut inside a cluster is only legal for StringPrefix (which shortens the
+		// prefix itself), StringPrefixFull requires that later characters cannot combine with the end of the prefix
+		var bounds []int
+		for i := range text {
+			bounds = append(bounds, i)
+		}
+		bounds = append(bounds, len(text))
+		cut := bounds[vChoice("cut", len(bounds))]
+		full := clusterEnd[cut] && vChoice("full", 2) == 1
+		b := cty.UnknownVal(cty.String).Refine().NotNull()
+		p := vExpectPanic(func() {
+			if full {
+				b = b.StringPrefixFull(text[:cut])
+			} else {
+				b = b.StringPrefix(text[:cut])
+			}
+		})
+		if p {
+			vReach("end-prefix-refused")
+			return
+		}
+		u := b.NewValue()
+		r, err := StrlenFunc.Call([]cty.Value{u})
+		vAssert("strlen-of-weakened-succeeds", err == nil)
+		if err == nil {
+			vAssert("strlen-result-admits-real-count", c12Admits(r, cty.NumberIntVal(int64(n))))
+		}
+		vReach("end-strlen")
+	case 1:
+		docs := []struct {
+			text string
+			ty   cty.Type
+		}{
+			{`"ab"`, cty.String}, {`true`, cty.Bool}, {`false`, cty.Bool}, {`-1`, cty.Number}, {`12`, cty.Number}, {`0.5`, cty.Number},
+			{`null`, cty.DynamicPseudoType}, {`[1]`, cty.Tuple([]cty.Type{cty.Number})}, {`{"a":1}`, cty.Object(map[string]cty.Type{"a": cty.Number})},
+			{" \r\n[1]", cty.Tuple([]cty.Type{cty.Number})}, {"\t\"x\"", cty.String}, {"\n\r 7", cty.Number}, {"\r\ntrue", cty.Bool},
+		}
+		d := docs[vChoice("doc", len(docs))]
+		cut := vChoice("cut", len(d.text)+1)
+		b := cty.UnknownVal(cty.String).Refine()
+		if vBool("notnull") {
+			b = b.NotNull()
+		}
+		if cut > 0 {
+			b = b.StringPrefixFull(d.text[:cut])
+		}
+		u := b.NewValue()
+		r, err := JSONDecodeFunc.Call([]cty.Value{u})
+		vAssert("jsondecode-of-weakened-valid-document-succeeds", err == nil)
+		if err == nil {
+			vAssert("jsondecode-predicted-type-admits-real-type", !r.IsKnown() && d.ty.TestConformance(r.Type()) == nil)
+		}
+		vReach("end-jsondecode")
+	default:
+		vals := []struct {
+			v    cty.Value
+			text string
+		}{
+			{cty.StringVal("a"), `"a"`}, {cty.NumberIntVal(1), `1`}, {cty.True, `true`},
+			{cty.ListVal([]cty.Value{cty.NumberIntVal(1)}), `[1]`}, {cty.SetVal([]cty.Value{cty.StringVal("x")}), `["x"]`},
+			{cty.TupleVal([]cty.Value{cty.True, cty.StringVal("s")}), `[true,"s"]`},
+			{cty.MapVal(map[string]cty.Value{"a": cty.NumberIntVal(1)}), `{"a":1}`},
+			{cty.ObjectVal(map[string]cty.Value{"a": cty.StringVal("b")}), `{"a":"b"}`},
+			{cty.NullVal(cty.String), `null`}, {cty.NullVal(cty.List(cty.Number)), `null`},
+		}
+		c := vals[vChoice("val", len(vals))]
+		w, ok := c12Weaken("w", c.v)
+		if !ok {
+			vAssume(false)
+		}
+		r, err := JSONEncodeFunc.Call([]cty.Value{w})
+		vAssert("jsonencode-of-weakened-succeeds", err == nil)
+		if err == nil {
+			vAssert("jsonencode-result-admits-real-encoding", c12Admits(r, cty.StringVal(c.text)))
+		}
+		vReach("end-jsonencode")
+	}
+}
